@@ -287,6 +287,78 @@ theorem center_ragged (g : List ℚ) (r : Row) (μ : List ℚ) (P Q : List ℚ)
           simp only [List.zipWith_cons_cons]
           rw [ih r μ hlen' hμ' hnd' hP' hQ']
 
+/-- The positional mask logic of `center`/`standardize` for ANY cell operation that keeps a
+missing sample missing and turns a number into a number. -/
+theorem cell_ragged {β : Type} (F : Option ℚ → β → Option ℚ) (f : ℚ → β → ℚ)
+    (hFn : ∀ s, F none s = none) (hFs : ∀ x s, F (some x) s = some (f x s))
+    (g : List ℚ) (r : Row) (μ : List β) (P Q : List ℚ)
+    (hlen : r.length = g.length) (hμ : μ.length = g.length) (hnd : g.Nodup)
+    (hP : ∀ x ∈ g, x ∈ P) (hQ : ∀ x ∈ g, x ∈ Q ↔ x ∈ (ragged g r).map Prod.fst) :
+    ragged g (List.zipWith F r (select (isin g P) μ)) =
+      List.zipWith (fun p m => (p.1, f p.2 m)) (ragged g r) (select (isin g Q) μ) := by
+  induction g generalizing r μ with
+  | nil =>
+    cases r with
+    | nil => simp [ragged]
+    | cons v r => simp at hlen
+  | cons a g ih =>
+    cases r with
+    | nil => simp at hlen
+    | cons v r =>
+      cases μ with
+      | nil => simp at hμ
+      | cons m μ =>
+        have hnd' := (List.nodup_cons.mp hnd).2
+        have ha : a ∉ g := (List.nodup_cons.mp hnd).1
+        have hsub := ragged_fst_sublist g r
+        have ha' : a ∉ (ragged g r).map Prod.fst := fun h => ha (hsub.subset h)
+        have hlen' : r.length = g.length := by simpa using hlen
+        have hμ' : μ.length = g.length := by simpa using hμ
+        have hPa : a ∈ P := hP a (by simp)
+        have hP' : ∀ x ∈ g, x ∈ P := fun x hx => hP x (List.mem_cons_of_mem _ hx)
+        cases v with
+        | none =>
+          have hQa : a ∉ Q := by
+            intro h
+            have := (hQ a (by simp)).mp h
+            rw [rg_none] at this
+            exact ha' this
+          have hQ' : ∀ x ∈ g, x ∈ Q ↔ x ∈ (ragged g r).map Prod.fst := by
+            intro x hx
+            have := hQ x (List.mem_cons_of_mem _ hx)
+            rw [rg_none] at this
+            exact this
+          have e1 : isin (a :: g) P = true :: isin g P := by simp [isin, hPa]
+          have e2 : isin (a :: g) Q = false :: isin g Q := by simp [isin, hQa]
+          rw [e1, e2]
+          simp only [select, List.zipWith_cons_cons, hFn]
+          rw [rg_none, rg_none]
+          exact ih r μ hlen' hμ' hnd' hP' hQ'
+        | some y =>
+          have hQa : a ∈ Q := by
+            apply (hQ a (by simp)).mpr
+            rw [rg_some]; simp
+          have hQ' : ∀ x ∈ g, x ∈ Q ↔ x ∈ (ragged g r).map Prod.fst := by
+            intro x hx
+            have := hQ x (List.mem_cons_of_mem _ hx)
+            rw [rg_some] at this
+            simp only [List.map_cons, List.mem_cons] at this
+            have hne : x ≠ a := fun h => ha (h ▸ hx)
+            constructor
+            · intro h
+              rcases this.mp h with h | h
+              · exact absurd h hne
+              · exact h
+            · intro h; exact this.mpr (Or.inr h)
+          have e1 : isin (a :: g) P = true :: isin g P := by simp [isin, hPa]
+          have e2 : isin (a :: g) Q = true :: isin g Q := by simp [isin, hQa]
+          rw [e1, e2]
+          simp only [select, List.zipWith_cons_cons, hFs]
+          rw [rg_some, rg_some]
+          simp only [List.zipWith_cons_cons]
+          rw [ih r μ hlen' hμ' hnd' hP' hQ']
+
+
 /-- values of the ragged encoding = the non-missing values of the row -/
 theorem ragged_snd (g : List ℚ) (r : Row) (h : r.length ≤ g.length) :
     (ragged g r).map Prod.snd = r.filterMap id := by
